@@ -213,7 +213,14 @@ def step_names(pid, tier, seed):
                 return m.group(1)
         return None
     rep = {"engine": "vnames (rustc, real proc-macro)", "counts": {}, "observed": {}, "violations": [], "samples": [], "notes": [], "bounds": {}, "exhaustive": True}
+    all_names = list(names)
     for gen, feats in (("tc", []), ("sm", ["--features", "sm"])):
+      bad_total = {}
+      # rustc stops after the phase in which the first errors occur: the crate is rebuilt without the
+      # modules that failed until a pass reports nothing new, so that no failure hides behind another
+      for _pass in range(6):
+        H.sh([sys.executable, os.path.join(H.ROOT, "tools", "gen_vnames.py")] + (["--skip", ",".join(sorted(bad_total))] if bad_total else []), timeout=60)
+        src = open(os.path.join(d, "src", "lib.rs")).read().split("\n")
         p = H.sh(["cargo", "build", "--offline", "--message-format=json", "--target-dir", os.path.join("target", gen)] + feats, cwd=d, timeout=3600, check=False)
         bad, ndiag = {}, 0
         for line in (p.stdout or "").splitlines():
@@ -235,15 +242,22 @@ def step_names(pid, tier, seed):
             bad.setdefault(n, m["message"]["message"][:200])
         if p.returncode != 0 and not bad:
             raise H.MachineryError("vnames: build failed without an attributable error: " + (p.stdout or "")[-600:])
+        bad_total.update(bad)
+        if not bad:
+            break
+      names = all_names
+      bad = bad_total
+      if True:
         for n, msg in sorted(bad.items()):
-            rep["violations"].append({"key": f"NAME-CLASH/{gen}/{n}", "tag": "NAME-CLASH", "case": f"enum {n} ({'state-machine' if gen == 'sm' else 'tail-call'} generator)",
-                                      "detail": f"the derive accepts an enum called {n} but the generated implementation does not compile (the name collides with an item of the generated code): {msg}",
+            rep["violations"].append({"key": f"NAME-CLASH/{gen}/{n}", "tag": "NAME-CLASH", "case": f"{'label callback ' + n[3:] if n.startswith('cb:') else 'enum ' + n} ({'state-machine' if gen == 'sm' else 'tail-call'} generator)",
+                                      "detail": (f"the derive accepts a label callback called {n[3:]} but the generated implementation does not compile (the name is shadowed by a parameter / local / item of the generated code): {msg}" if n.startswith("cb:") else f"the derive accepts an enum called {n} but the generated implementation does not compile (the name collides with an item of the generated code): {msg}"),
                                       "replay": {"kind": "names", "tag": "NAME-CLASH", "generator": gen, "name": n}})
         rep["counts"]["evaluations"] = rep["counts"].get("evaluations", 0) + len(names)
         rep["counts"]["distinct_nontrivial"] = rep["counts"].get("distinct_nontrivial", 0) + len(names)
         rep["counts"]["programs"] = rep["counts"].get("programs", 0) + len(names)
         rep["observed"][f"names_that_compile_{gen}"] = len(names) - len(bad)
-    rep["bounds"]["rule"] = f"{len(names)} enum names taken from the generated code (declared helper items, imported aliases, prelude names, local variable names) x both code generators, compiled by rustc through the real derive; every one must compile"
+    H.sh([sys.executable, os.path.join(H.ROOT, "tools", "gen_vnames.py")], timeout=60)
+    rep["bounds"]["rule"] = f"{len(names)} names (enum names, and with the prefix cb: names of label callbacks) taken from the generated code (declared helper items, imported aliases, prelude names, local variable names) x both code generators, compiled by rustc through the real derive; every one must compile"
     rep["samples"].append({"names": names})
     return "vnames", rep
 
